@@ -259,3 +259,42 @@ def status_after(s0, any_fail, any_warn):
 @primitive
 def is_blank(s):
     return len(s.strip()) == 0
+
+
+@uninterpreted('str;str->bool')
+def alg_fail(cat, name):
+    """the rating table holds a failure note for (category, name) -- a function of the table only"""
+    return False
+
+
+@uninterpreted('str;str->bool')
+def alg_warn(cat, name):
+    """the rating table holds a warning note for (category, name), or does not know the name"""
+    return False
+
+
+def alg_step(cat, name, s0):
+    """status after rendering one algorithm"""
+    return s0 if is_blank(name) else status_after(s0, alg_fail(cat, name), alg_warn(cat, name))
+
+
+@recursive('str;list[str];int->int', fuel=1)
+def fold_algs(cat, names, s0):
+    """status after rendering a list of algorithms, in order"""
+    return s0 if len(names) == 0 else alg_step(cat, names[-1], fold_algs(cat, names[:-1], s0))
+
+
+@recursive('str;list[str]->bool', fuel=1)
+def any_fail(cat, names):
+    return False if len(names) == 0 else (any_fail(cat, names[:-1]) or (not is_blank(names[-1]) and alg_fail(cat, names[-1])))
+
+
+@recursive('str;list[str]->bool', fuel=1)
+def any_warn(cat, names):
+    return False if len(names) == 0 else (any_warn(cat, names[:-1]) or (not is_blank(names[-1]) and alg_warn(cat, names[-1])))
+
+
+@lemma('str;list[str];int', requires='s0 == 0 or s0 == 2 or s0 == 3', induction='names', smaller='names[:-1]', base='len(names) == 0', fuel=2)
+def fold_is_worst(cat, names, s0):
+    """the fold over a list equals 'failure if any failure, else warning if any warning, else unchanged' (order independent)"""
+    return fold_algs(cat, names, s0) == status_after(s0, any_fail(cat, names), any_warn(cat, names))
